@@ -287,7 +287,7 @@ func (rw *rewriter) globalPass() {
 			switch rw.pkgOf(id) {
 			case "sync":
 				switch x.Sel.Name {
-				case "WaitGroup", "Mutex", "Pool":
+				case "WaitGroup", "Mutex", "Pool", "RWMutex":
 					id.Name = "simrt"
 					rw.used = true
 					rep.Counts["sync."+x.Sel.Name]++
